@@ -46,6 +46,21 @@ def main():
     ctx = {"tier": tier, "seed": seed}
     if hasattr(mod, "setup_worker"):
         mod.setup_worker(ctx)
+    reach = None
+    reach_spec_sent = False
+    if getattr(mod, "REACH_TARGETS", None):
+        try:
+            from vf import monitors as _m
+
+            reach = _m.Reach()
+            for label, path in mod.REACH_TARGETS:
+                modname, _, qual = path.partition(":")
+                obj = importlib.import_module(modname)
+                for part in qual.split("."):
+                    obj = getattr(obj, part)
+                reach.watch(label, obj)
+        except Exception:  # noqa: BLE001  (evidence only, never a verdict)
+            reach = None
     signal.signal(signal.SIGALRM, _alarm)
     for line in sys.stdin:
         line = line.strip()
@@ -85,6 +100,11 @@ def main():
             signal.alarm(0)
         res["uid"] = unit.get("uid")
         res["wall"] = round(time.time() - t0, 3)
+        if reach is not None:
+            res["reach"] = reach.report()
+            if not reach_spec_sent:
+                res["reach_spec"] = reach.spec
+                reach_spec_sent = True
         chan.write("@@RESULT " + json.dumps(res, default=_json_default) + "\n")
         chan.flush()
 
